@@ -493,6 +493,26 @@ class FuncFlow:
             if isinstance(vv, (ast.Tuple, ast.List)) and len(vv.elts) == len(target.elts) and \
                     not any(isinstance(t, ast.Starred) for t in target.elts):
                 elts = vv.elts
+            elif isinstance(vv, Phi) and not any(isinstance(t, ast.Starred) for t in target.elts):
+                # a join of tuple displays (the result variable of an expanded helper with several returns):
+                # unpack position by position
+                opts = []
+                for o in vv.options:
+                    hops = 0
+                    site = None
+                    while isinstance(o, Ref) and hops < 10:
+                        site = o.stmt              # where this alternative was chosen (its branch facts hold there)
+                        o = o.value
+                        hops += 1
+                    opts.append((o, site))
+                if opts and all(isinstance(o, (ast.Tuple, ast.List)) and len(o.elts) == len(target.elts) for o, _ in opts):
+                    elts = []
+                    for i in range(len(target.elts)):
+                        if len({id(o.elts[i]) for o, _ in opts}) > 1:
+                            elts.append(Phi([Ref(f"<alt{i}>", o.elts[i], site) if site is not None else o.elts[i]
+                                             for o, site in opts]))
+                        else:
+                            elts.append(opts[0][0].elts[i])
             for i, t in enumerate(target.elts):
                 if isinstance(t, ast.Starred):
                     self._assign(t.value, Elt(value, ('*', i)), stmt, st, before)
